@@ -333,6 +333,14 @@ class Project:
             k_t += sum(normalise.eliminate_temps(f.node) for f in fns)
       if k_t:
         self.inlined.append(f'{k_t} single-assignment local(s) substituted')
+      if hp and (expand.get('temps') or expand.get('loops')):
+        # records whose aliases went away with the temporaries
+        folder = inline.Inliner(self, None)
+        for f in fns:
+          if isinstance(f.node, ast.FunctionDef):
+            folder._fold_records(f)  # pylint: disable=protected-access
+            if expand.get('temps'):
+              normalise.eliminate_temps(f.node)
       for f in self.funcs.values():
         f._locals = None   # computed on the tree as written
 
